@@ -326,6 +326,7 @@ int main(int argc, char** argv) {
 
 def jobs(tier):
     js = [(h_inputbuffer, (mth,), 600) for mth in ('read', 'seek', 'skip')]
+    js += [(h_outbuf_write, (t, 2), 600) for t in WRITE_TYPES]
     # h_outbuf_write_one is not scheduled: the FP growth loop of maybe_resize costs ~15 min of branch-feasibility queries and stays inconclusive
     for T in (32, 64):
         for w in WORDS:
@@ -417,3 +418,82 @@ int main(int argc, char** argv) {
     tw = [('reallocation path', length == reserved)]
     return mdischarge(m, 'ForthOutputBufferOf<int64_t>::write_one_int64%s' % (' reserved_=0 twin' if min_reserved == 0 else ''), obls, tw,
                       timeout_ms=120000, replay=replay, extra=dict(bounds='reserved_ in [%d, 2^40], resize in [1.5, 16]' % min_reserved))
+
+
+WRITE_TYPES = {'int16': ('s', 16, True), 'uint16': ('t', 16, False), 'int32': ('i', 32, True), 'uint32': ('j', 32, False),
+               'int64': ('l', 64, True), 'uint64': ('m', 64, False)}
+
+
+@guard
+def h_outbuf_write(typ, n):
+    """typed output write of n items (ForthOutputBufferOf<int64_t>::write_<typ>) when the buffer has room: each item lands, converted to
+    the output type and byte-swapped iff requested, at old length + i; the *input* items are unchanged afterwards; length grows by n"""
+    from .mharness import stub_noop
+    code, bits, signed = WRITE_TYPES[typ]
+    m = MCtx([FOB], unwind=n + 4, stubs={'awkward_free': stub_noop})
+    length, bswap = m.bv('length'), m.bv('byteswap', 1)
+    m.assume(length >= 0, length <= 2 ** 40)
+    reserved = length + n + 2
+    buf = m.array('obuf', ('i', 64), reserved)
+    vals = m.array('values', ('i', bits), n)
+    this = m.record('ob', {0: (NULL, 8), 8: (length, 8), 16: (reserved, 8), 24: (z3.FPVal(1.5, z3.Float64()), 8), 32: (buf, 8), 40: (NULL, 8)})
+    fn = '_ZN7awkward19ForthOutputBufferOfIlE%d%sElP%sb' % (len('write_' + typ), 'write_' + typ, code)
+    m.call(fn, [this, z3.BitVecVal(n, 64), vals, bswap])
+    L1 = m.cell('ob', 8)
+    v0 = z3.Array('values', z3.BitVecSort(64), z3.BitVecSort(bits))
+    v1 = m.mem.o['values'].arr
+    out1 = m.mem.o['obuf'].arr
+
+    def swap(x):
+        nb = bits // 8
+        return z3.Concat(*[z3.Extract(8 * i + 7, 8 * i, x) for i in range(nb)])
+    obls = [('length grows by the number of items', L1 != length + n)]
+    for i in range(n):
+        x = z3.Select(v0, z3.BitVecVal(i, 64))
+        y = z3.If(bswap == 1, swap(x), x)
+        wide = y if bits == 64 else (z3.SignExt(64 - bits, y) if signed else z3.ZeroExt(64 - bits, y))
+        obls.append(('item %d is written (byte-swapped iff requested) at old length + %d' % (i, i), z3.Select(out1, length + i) != wide))
+        obls.append(('input item %d is unchanged after the write' % i, z3.Select(v1, z3.BitVecVal(i, 64)) != x))
+
+    def replay(model, ent):
+        ev = lambda e: model.eval(e, model_completion=True)
+        items = [ev(z3.Select(v0, z3.BitVecVal(i, 64))).as_long() for i in range(n)]
+        bs = ev(bswap).as_long()
+        L = min(ev(length).as_signed_long(), 8)
+        ct = ('' if signed else 'u') + 'int%d_t' % bits
+        drv = r"""
+#include <cstdio>
+#include <cstdlib>
+#include <cstring>
+#include "awkward/forth/ForthOutputBuffer.h"
+using namespace awkward;
+int main(int argc, char** argv) {
+  int n = atoi(argv[1]); bool bs = atoi(argv[2]); int L = atoi(argv[3]);
+  %s in[16], orig[16];
+  for (int i = 0; i < n; i++) { unsigned long long raw = strtoull(argv[4 + i], nullptr, 10); in[i] = (%s)raw; orig[i] = in[i]; }
+  ForthOutputBufferOf<int64_t> b(L + n + 2, 1.5);
+  for (int i = 0; i < L; i++) b.write_one_int64(7, false);
+  b.write_%s(n, in, bs);
+  int bad = 0;
+  if (b.len() != L + n) bad |= 1;
+  int64_t* p = reinterpret_cast<int64_t*>(b.ptr().get());
+  for (int i = 0; i < n; i++) {
+    %s x = orig[i];
+    if (bs) { unsigned char* c = (unsigned char*)&x; for (size_t k = 0; k < sizeof(x) / 2; k++) { unsigned char t = c[k]; c[k] = c[sizeof(x) - 1 - k]; c[sizeof(x) - 1 - k] = t; } }
+    if (p[L + i] != (int64_t)x) bad |= 2;
+    if (in[i] != orig[i]) bad |= 4;
+  }
+  printf("bad=%%d\n", bad);
+  return bad ? 1 : 0;
+}
+""" % (ct, ct, typ, ct)
+        exe = build.compile_objs_driver(drv, [FOB])
+        r = subprocess.run([exe, str(n), str(bs), str(L)] + [str(v) for v in items], capture_output=True, text=True, timeout=20,
+                           env=dict(os.environ, ASAN_OPTIONS='detect_leaks=0', UBSAN_OPTIONS='halt_on_error=1:exitcode=87'), errors='replace')
+        payload = dict(items=items, byteswap=bs, length=L, type=typ)
+        if r.returncode != 0:
+            return True, 'native write_%s of %s (byteswap=%d): %s (2 = wrong output, 4 = input modified) %s' % (
+                typ, items, bs, r.stdout.strip(), [l for l in r.stderr.splitlines() if 'runtime error' in l or 'ERROR' in l][:1]), payload
+        return False, 'native run satisfies the postconditions', payload
+    return mdischarge(m, 'ForthOutputBufferOf<int64_t>::write_%s n=%d' % (typ, n), obls, [('byteswap requested', bswap == 1)], timeout_ms=60000, replay=replay,
+                      extra=dict(bounds='n=%d items, all values, buffer with room (no growth)' % n))
